@@ -316,7 +316,10 @@ func (g *G) errNew() *N {
 // natural draws an expression on which the interpreter itself fails (not a simulated callee):
 // an unbound name, a missing property, an integer division by zero.
 func (g *G) natural() *N {
-	switch g.t.Intn(4) {
+	switch g.t.Intn(5) {
+	case 4:
+		// the placeholder `_`: a name that is bound - to an error that is raised whenever it is evaluated
+		return &N{K: KNat, Names: []string{"_"}, Str: "NotImplementedErr", Msg: "Not implemented"}
 	case 0:
 		nm := g.name("undef")
 		return &N{K: KNat, Names: []string{nm}, Str: "NameErr", Msg: "name `" + nm + "` is not defined"}
@@ -668,7 +671,13 @@ func (g *G) callArgs(c *N, np int, kw []string, depth int, slotsAllowed bool) {
 			i++
 			continue
 		}
-		c.L = append(c.L, g.intExpr(depth, "call/arg"))
+		if g.p.Natural && g.noFault == 0 && g.t.Chance(1, 12) {
+			// an argument that is nothing but a name (unbound, or the placeholder `_`) or another
+			// expression the interpreter itself fails on
+			c.L = append(c.L, g.natural())
+		} else {
+			c.L = append(c.L, g.intExpr(depth, "call/arg"))
+		}
 		c.Star = append(c.Star, 0)
 	}
 	kwWithSlots := 0
